@@ -226,7 +226,7 @@ def run_scenario(arg):
                 except BaseException as e:       # noqa
                     raised = "%s: %s" % (type(e).__name__, str(e)[:200])
             r = {"k": k, "variant": variant, "raised": raised, "fired": rec.fired, "ncalls": rec.n,
-                 "trace": rec.trace, "kinds": rec.kinds, "bypassed": rec.bypassed}
+                 "trace": rec.trace, "kinds": rec.kinds, "bypassed": rec.bypassed, "fired_at": rec.fired_at}
             def reader():
                 rr = dsfs.Recorder(work)
                 with rr:
@@ -302,8 +302,13 @@ def judge(sc, res, r):
         # the failing call came before any write-open of _metadata, or it names a part file / directory (the append was
         # still writing data, so by "parts first, summary last" the summary must not have been touched yet)
         if phase != "before_md":
-            problems.append(("data-call-after-summary-rewrite-started",
-                             "call %s on %s was issued after _metadata had been opened for writing" % (r["fired"][1], r["fired"][2])))
+            if r.get("fired_at") is not None and mdi >= r["fired_at"]:
+                problems.append(("summary-rewritten-after-the-failure",
+                                 "call %s on %s failed, and _metadata was opened for writing afterwards although the append reports failure" % (
+                                     r["fired"][1], r["fired"][2])))
+            else:
+                problems.append(("data-call-after-summary-rewrite-started",
+                                 "call %s on %s was issued after _metadata had been opened for writing" % (r["fired"][1], r["fired"][2])))
         if r["read"] != "old":
             problems.append(("failed-before-metadata-but-content-changed",
                              "append raised (%s) while it was still writing part files / before _metadata was opened for writing, but a fresh open reads %s (%s)" % (
@@ -321,7 +326,6 @@ def run(ctx):
     ctx.obligation("hygiene: no Admitted/Axiom/Parameter/... in coq/", not bad, "; ".join(bad))
     C.use_shadow()
     C.pqref()
-    import multiprocessing as mp
     rng = ctx.rng
     nsc = 24 if ctx.quick() else 240
     ctx.rule = ("scenario = hive dataset (0..2 partition columns, 1..3 row groups, 0..2 earlier appends, codec/stats varied) + an append of 1..4 new "
@@ -337,9 +341,14 @@ def run(ctx):
             sc["id"] = 100000 + i
             scs.insert(0, sc)
     args = [(sc, ctx.scratch, ctx.tier, None) for sc in scs]
-    with mp.get_context("fork").Pool(NPROC) as pool:
-        # a hang of the real code must end the check, not block it
-        results = pool.map_async(run_scenario, args, chunksize=1).get(timeout=900 if ctx.quick() else 3000)
+    # crash-proof parallel map: a scenario whose worker dies or hangs is a reported failure, not a hung check
+    results = C.pmap(run_scenario, args, nproc=NPROC, job_timeout=900 if ctx.quick() else 2400)
+    for sc, res in zip(scs, list(results)):
+        if isinstance(res, dict) and "__crashed__" in res:
+            ctx.case({"sc": sc["id"], "k": None, "v": "crashed", "f": sc["frame1"], "p": sc["partition_on"]})
+            ctx.fail({"component": "write_multi.append", "symptom": "process-crashed-or-hung", "phase": None, "fault_kind": None, "variant": None},
+                     {"scenario": sc, "k": None, "variant": "pre"}, "the process running this scenario on the real code %s" % res["__crashed__"])
+    results = [r for r in results if not (isinstance(r, dict) and "__crashed__" in r)]
     pq = C.Pqref()
     by_id = {sc["id"]: sc for sc in scs}
     # ---- FsPaths.part_id / find_max_part against api.PART_ID / writer.find_max_part
